@@ -778,7 +778,8 @@ func mod(a, m int) int {
 // ---------------------------------------------------------------- exhaustive unit
 
 // scripts builds the canonical op scripts for one shape; nspecial is the number of special values of the element type.
-func scripts(w, h, nspecial int, yield func(name string, ops []Op) bool) bool {
+// lite leaves out the scripts that only vary coordinates (get, fill-oob, all fill scripts but the one starting in the last row).
+func scripts(w, h, nspecial int, lite bool, yield func(name string, ops []Op) bool) bool {
 	var setAll []Op
 	for y := 0; y < h; y++ {
 		for x := 0; x < w; x++ {
@@ -805,7 +806,7 @@ func scripts(w, h, nspecial int, yield func(name string, ops []Op) bool) bool {
 			ops = append(ops, Op{K: OpGet, X1: x, Y1: y})
 		}
 	}
-	if !yield("get", ops) {
+	if !lite && !yield("get", ops) {
 		return false
 	}
 	// row: every y in -2..h+1
@@ -839,6 +840,9 @@ func scripts(w, h, nspecial int, yield func(name string, ops []Op) bool) bool {
 	}
 	// fill: every ordered pair of corners (so all four corner orders), one script per y1, plus corners just outside
 	for y1 := 0; y1 < h; y1++ {
+		if lite && y1 != h-1 {
+			continue
+		}
 		ops = nil
 		for x1 := 0; x1 < w; x1++ {
 			for y2 := 0; y2 < h; y2++ {
@@ -863,7 +867,7 @@ func scripts(w, h, nspecial int, yield func(name string, ops []Op) bool) bool {
 			}
 		}
 	}
-	if !yield("fill-oob", ops) {
+	if !lite && !yield("fill-oob", ops) {
 		return false
 	}
 	// special: every special value of the element type (the zero value first) written by Fill and by Set over
@@ -952,7 +956,7 @@ func jagVariants(w, h int) [][]int {
 }
 
 // enumShape yields the canonical cases of one shape and element type.
-func enumShape(T string, w, h int, yield func(Case) bool) bool {
+func enumShape(T string, w, h int, lite bool, yield func(Case) bool) bool {
 	nsp := nspecials[T]
 	jv := jagVariants(w, h)
 	// constructors alone; New2DFilled with an ordinary value and with every special value (the zero value is -1)
@@ -971,7 +975,7 @@ func enumShape(T string, w, h int, yield func(Case) bool) bool {
 	}
 	// every script on every constructor
 	i := 0
-	return scripts(w, h, nsp, func(name string, ops []Op) bool {
+	return scripts(w, h, nsp, lite, func(name string, ops []Op) bool {
 		for ctor := 0; ctor < 3; ctor++ {
 			c := Case{T: T, W: w, H: h, Ctor: ctor, Ops: ops}
 			if ctor == 1 && nsp > 0 {
@@ -996,7 +1000,7 @@ func enumerate(tier string, yield func(Case) bool) {
 	}
 	for w := 0; w <= max; w++ {
 		for h := 0; h <= max; h++ {
-			if !enumShape("", w, h, yield) {
+			if !enumShape("", w, h, false, yield) {
 				return
 			}
 		}
